@@ -77,6 +77,13 @@ def run_seed(mod, seed, tier, scenario=None, trace=None, keep=False):
         scenario = scenario_for(mod, seed, tier)
     t0  = time.time()
     res = mod.run(seed, scenario, trace=trace, tier=tier)
+    if isinstance(scenario, dict) and scenario.get('kinds'):
+        # anomalies written into a generated notification history (dup,
+        # reorder, skipped, stale, contradictory ...) count as injected faults
+        res['faults'] = dict(res['faults'])
+        for k in scenario['kinds']:
+            key = 'history:%s' % k
+            res['faults'][key] = res['faults'].get(key, 0) + 1
     out = {'seed'     : seed,
            'status'   : res['status'],
            'sigs'     : sorted({signature(v) for v in res['violations']}),
@@ -365,6 +372,11 @@ def check(prop, tier, nseeds=None, budget=None):
             'rule'               : info.get('rule', ''),
             'samples'            : samples,
             'states'             : len(states),
+            'states_measure'     : 'distinct abstract run states: the check\'s '
+                                   'own fingerprint where it defines one, '
+                                   'else (event kinds with order of magnitude '
+                                   'of their counts, fault kinds fired, '
+                                   'probes hit)',
             'runs_ok'            : n_ok,
             'runs_violation'     : n_viol,
             'runs_inconclusive'  : n_inc,
